@@ -5,6 +5,7 @@ package props
 // eviction pattern they contain), evaluated at EVERY event of every trace.
 
 import (
+	"math"
 	"encoding/json"
 	"fmt"
 	"os"
@@ -61,7 +62,9 @@ func (w *walState) feed(ctx string) {
 			return
 		}
 		lsn, txn := int32(rec.Lsn), int32(rec.TxnID)
-		if lsn >= 0 && w.noOrder {
+		if lsn >= 0 && (w.noOrder || txn == math.MaxInt32) {
+			// (records of the system pseudo-transaction - page deallocation / reuse, graceful shutdown - carry
+			// the id MaxInt32 and are not chained: the order clause is about transactions)
 			if lsn > w.maxLSN {
 				w.maxLSN = lsn
 			}
